@@ -139,9 +139,22 @@ macro_rules! open {
     }};
 }
 
+/// run_history_inner with a panic of the freezer turned into a violation that carries the history
+fn run_history(dir: &Path, max: u64, comp: bool, ops: &[Op], viol: &mut Vec<Violation>, ctx: &Value) -> Vec<Obs> {
+    let r = std::panic::catch_unwind(std::panic::AssertUnwindSafe(|| run_history_inner(dir, max, comp, ops, viol, ctx)));
+    match r {
+        Ok(o) => o,
+        Err(p) => {
+            let msg = p.downcast_ref::<String>().cloned().or_else(|| p.downcast_ref::<&str>().map(|s| s.to_string())).unwrap_or_default();
+            viol.push(Violation { what: format!("the freezer panicked while this history was applied or read back: {msg}"), detail: ctx.clone() });
+            vec![None]
+        }
+    }
+}
+
 /// Runs one history on the implementation. Returns the observation after every
 /// op and checks the property predicate on the way.
-fn run_history(
+fn run_history_inner(
     dir: &Path,
     max: u64,
     comp: bool,
@@ -165,8 +178,32 @@ fn run_history(
         match op {
             Op::Append(x) => {
                 let n = f.number();
-                if let Err(e) = f.append(n, x) {
-                    viol.push(Violation { what: format!("append failed: {e}"), detail: json!({"case": ctx, "step": step}) });
+                // a transient I/O error: for every third payload length the head data file is made
+                // unavailable (renamed away) during the append.  An append that stays inside the head file
+                // writes through its open handle and succeeds; one that rolls over cannot re-open the old
+                // head read-only and returns Err — nothing was acknowledged, and the retry (file back in
+                // place) must succeed and leave every item readable.
+                let trick = x.len() % 3 == 0 && std::env::var("HX_NO_IO_ERRORS").is_err();
+                let mut moved: Option<(std::path::PathBuf, std::path::PathBuf)> = None;
+                if trick {
+                    let head = read_index(dir).last().map(|e| e.0).unwrap_or(0);
+                    let from = blk(dir, head);
+                    let to = dir.join("moved-away");
+                    if fs::rename(&from, &to).is_ok() { moved = Some((from, to)); }
+                }
+                let r1 = f.append(n, x);
+                if let Some((from, to)) = moved.take() { let _ = fs::rename(&to, &from); }
+                match r1 {
+                    Ok(()) => {}
+                    Err(e) if trick => {
+                        if f.number() != n {
+                            viol.push(Violation { what: format!("an append that returned an error ({e}) changed number() from {n} to {}", f.number()), detail: json!({"case": ctx, "step": step}) });
+                        }
+                        if let Err(e2) = f.append(n, x) {
+                            viol.push(Violation { what: format!("the retry of an append that failed with a transient I/O error ({e}) fails: {e2}"), detail: json!({"case": ctx, "step": step}) });
+                        }
+                    }
+                    Err(e) => viol.push(Violation { what: format!("append failed: {e}"), detail: json!({"case": ctx, "step": step}) }),
                 }
             }
             Op::Truncate(i) => {
@@ -584,7 +621,14 @@ fn main() {
             for k in 0..=n {
                 let header = HeaderBuilder::default().number(k).parent_hash(parent.clone()).timestamp(1000 + k).build();
                 let props: Vec<ckb_types::packed::ProposalShortId> = (0..rng.below(6)).map(|j| ckb_types::packed::ProposalShortId::new([(k as u8).wrapping_add(j as u8); 10])).collect();
-                let b = BlockBuilder::default().header(header).proposals(props).build();
+                // about half of the blocks carry an extension field (the packed Block table then has a fifth
+                // field, which only the compatible reader accepts)
+                let mut bb = BlockBuilder::default().header(header).proposals(props);
+                if rng.chance(1, 2) {
+                    let ext: ckb_types::packed::Bytes = ckb_types::bytes::Bytes::from((0..rng.range(1, 96)).map(|i| (i as u64 ^ k) as u8).collect::<Vec<u8>>()).pack();
+                    bb = bb.extension(Some(ext));
+                }
+                let b = bb.build();
                 parent = b.hash();
                 blocks.push(b);
             }
